@@ -40,7 +40,7 @@ HARNESSES = [
 ]
 JOBS = 2
 MANIFEST = {
-  'level_text': 'Bounded model checking of the record scanner of the lazy loader: for every data-section record within the byte bound (symbolic instance number, keyword, blanks and parameter bytes over # digits quote / * ( ) , blank letter) lazyP21DataSectionReader::nextInstance / sectionReader::seekInstanceEnd index the record under its own number and keyword, list exactly the #n references that stand outside strings and comments, in order, stop right behind the record\'s own semicolon, and do not index a record they cannot delimit. GetLiteralStr is replaced by a string-free contract that a separate query proves equivalent in stream effect (assume-guarantee).',
+  'level_text': 'Bounded model checking of the record scanner of the lazy loader: for every data-section record within the byte bound (symbolic instance number, keyword, blanks and parameter bytes over # digits quote / * ( ) , blank letter) lazyP21DataSectionReader::nextInstance / sectionReader::seekInstanceEnd index the record under its own number (the decimal value of the digits, leading zeros included) and keyword, list exactly the #n references that stand outside strings and comments, in order, stop right behind the record\'s own semicolon, and do not index a record they cannot delimit. GetLiteralStr is replaced by a string-free contract that a separate query proves equivalent in stream effect (assume-guarantee).',
   'level_note': 'Trusted: CBMC, ir2c, vstd stream model, the reference scanner in the harness. Outside the claim (see not-applicable part in DESIGN.md section 5): the judy-array index and reference tables, reverse table and dependency closure, loadInstance and agreement with the eager reader, header section, multi-record files, complex instances, bodies beyond the byte bound.',
   'technique': 'CBMC bounded model checking of IR-translated sectionReader/lazyP21DataSectionReader scanners against a reference scanner, with an SMT-proven contract for GetLiteralStr (assume-guarantee)',
   'design_ref': 'DESIGN.md section 2, C10',
